@@ -265,8 +265,31 @@ def check_fallback(ctx, tp, info, drv):
              branch="fallback/%s/%s/%s" % (FMT[tp.fmt]["family"], info["order"], info["header"]))
 
 
+def year_midnight_pass(rng, k):
+    """an implausible year on one or two later lines of a pass whose midnight falls within its first 1 % (stage 2 then finds
+    too few lines near the header time and the stage-1 times are what is returned): the whole pass is rebuilt from the first
+    line, and must still come out right (theorem C08.repair_year_out_of_range)"""
+    fmt = list(FMT)[k % len(FMT)]
+    n = rng.choice([300, 500, 1200])
+    nums = list(range(1, n + 1))
+    offs = timesgen.ideal_offsets(fmt, nums)
+    c = rng.randint(1, max(1, n // 100 - 1))          # fewer than 1 % of the lines lie before midnight
+    year = rng.choice([1999, 2003, 2004]) if FMT[fmt]["family"] == "klm" else rng.choice([1992, 1996, 2000])
+    midnight = ydm_to_ms(year, rng.randint(2, 365), 0)
+    start = midnight - rng.randint(int(offs[c - 1]) + 1, int(offs[c]))
+    tp = TimePass(fmt, nums, start)
+    for i in rng.sample(range(c + 1, n), rng.choice([1, 2])):
+        tp.year[i] = rng.choice([0, 65535, 2999]) if FMT[fmt]["family"] == "klm" else rng.choice([2075, 1976, 1977])
+        tp.corrupted[i] = True
+    return tp, {"kind": "year+early-midnight", "gaps": "none", "n0": 1, "pattern": "isolated", "style": "year", "k": 2,
+                "frac": 0.01, "kinds": ["year"]}
+
+
 def run(ctx):
     drv = []
+    for k in range(ctx.n(8, 40)):
+        tp, info = year_midnight_pass(ctx.rng, k)
+        check_repair(ctx, tp, info, drv)
     for k in range(ctx.n(140, 600)):
         tp, info = clean_pass(ctx.rng, ctx.thorough, k)
         info.update(corrupt(ctx.rng, tp))
@@ -284,9 +307,10 @@ def run(ctx):
         if k < 2:
             ctx.sample({"fmt": tp.fmt, "info": info, "nums": tp.nums[:6]})
     compare_with_model(ctx, drv)
-    ctx.assumptions.append("C08 clause 'any garbage in < 40 % of the lines is repaired' is NOT a theorem (partial): "
-                           "stage2_repairs is proved for the threshold stage given a good majority near the header time; "
-                           "that stage 1 leaves such a majority is observed on the generated corruption patterns only")
+    ctx.assumptions.append("C08 clause 'any garbage in < 40 % of the lines is repaired' is a theorem for garbage in the ms field, "
+                           "in the day + ms fields (< 40 %), for an implausible year anywhere and for any garbage on < 1/3 of the "
+                           "lines; for a wrong but plausible year on 1/3 .. 40 % of the lines it is observed on the generated "
+                           "corruption patterns only")
 
 
 def replay(ctx, path):
